@@ -137,7 +137,7 @@ def run(ctx: vlib.Ctx):
         "harness/c17_render.py: independent reading of typing objects into Render.rty (types outside the grammar - TypeVar, Unpack, ForwardRef, "
         "Callable - are skipped and counted); Render.render is compared with mashumaro's type_name on every field annotation of every generated "
         "schema and with the text of the generated MissingField paths / defaultdict factories",
-        "kernel K41 (tools/kernels/k41_clean_id.py): the regular expression \\W|^(?=\\d) is read as a character map after checking that the pattern "
+        "kernel K42 (tools/kernels/k42_clean_id.py): the regular expression \\W|^(?=\\d) is read as a character map after checking that the pattern "
         "text and the body of clean_id are exactly the expected ones (fail closed); the \\w / \\d tables below code point 0x3000 come from Python's re "
         "with the pattern read from the source and are validated against the real clean_id exhaustively on every run; code points >= 0x3000 are outside the kernel",
         "NsBind.clean_id models re.sub(r'\\W|^(?=\\d)', '_', s) for ASCII input only (compared with the implementation each run)",
@@ -472,18 +472,18 @@ def clean_id_corr(ctx):
         if bad:
             ctx.not_shown("correspondence clean_id", f"inputs {[strs[i] for i in bad[:10]]}")
     ctx.count(n=len(cases))
-    k41_corr(ctx)
+    k42_corr(ctx)
 
 
-def k41_corr(ctx):
-    """translated kernel K41 (clean_id as a character map) vs the real clean_id: every code point below 0x3000 alone and
+def k42_corr(ctx):
+    """translated kernel K42 (clean_id as a character map) vs the real clean_id: every code point below 0x3000 alone and
     after a letter (thorough: also in front of a digit), plus random strings"""
     import random
     from mashumaro.core.meta.types.common import clean_id
-    ctx.theorems("props/C17_cleanid.vo", ["C17_clean_id_identifier", "C17_clean_id_length", "C17_clean_id_kernel_refuted"], kernels=["K41"])
-    if not ctx.kernel_report.get("K41", {}).get("ok"):
+    ctx.theorems("props/C17_cleanid.vo", ["C17_clean_id_identifier", "C17_clean_id_length", "C17_clean_id_kernel_refuted"], kernels=["K42"])
+    if not ctx.kernel_report.get("K42", {}).get("ok"):
         return
-    rng = random.Random(f"c17-k41-{ctx.seed}")
+    rng = random.Random(f"c17-k42-{ctx.seed}")
     strs = []
     for cp in range(0x3000):
         strs.append(chr(cp))
@@ -497,17 +497,17 @@ def k41_corr(ctx):
     def lst(x):
         return "[" + "; ".join(str(ord(ch)) for ch in x) + "]%N"
     cases = [f"({lst(x)}, {lst(clean_id(x))})" for x in strs]
-    bad, log = vlib.coq_bad_idx(f"c17_k41_{ctx.seed}", "", "From VerifGen Require Import K41.", "", cases,
-                                "fun c => if list_eq_dec N.eq_dec (K41.clean_id (fst c)) (snd c) then true else false",
-                                "list N * list N", shard=7000, needs=["gen/K41.vo"])
-    name = "K41 (clean_id translated as a character map) vs mashumaro clean_id: all code points below 0x3000 + random strings"
+    bad, log = vlib.coq_bad_idx(f"c17_k42_{ctx.seed}", "", "From VerifGen Require Import K42.", "", cases,
+                                "fun c => if list_eq_dec N.eq_dec (K42.clean_id (fst c)) (snd c) then true else false",
+                                "list N * list N", shard=7000, needs=["gen/K42.vo"])
+    name = "K42 (clean_id translated as a character map) vs mashumaro clean_id: all code points below 0x3000 + random strings"
     if bad is None:
         ctx.correspondence(name, len(cases), -1, log)
-        ctx.not_shown("translation validation K41", log)
+        ctx.not_shown("translation validation K42", log)
     else:
         ctx.correspondence(name, len(cases), len(bad), str([strs[i] for i in bad[:8]]))
         if bad:
-            ctx.not_shown("translation validation K41", f"inputs {[strs[i] for i in bad[:8]]!r}")
+            ctx.not_shown("translation validation K42", f"inputs {[strs[i] for i in bad[:8]]!r}")
     ctx.count(n=len(cases))
 
 
